@@ -128,6 +128,7 @@ type GenCfg struct {
 	WantSum      bool // force a checksum field
 	WantMatch    bool // force a match field
 	Docs         bool // allow doc strings
+	MetaShare    bool // several fields typed by one fixed-string MetaData entry (and an alias), one of them padded
 }
 
 func (c GenCfg) avoid(tag string) bool { return c.Avoid != nil && c.Avoid[tag] }
@@ -189,7 +190,7 @@ func (g *genState) doc(label string) string {
 	if !g.cfg.Docs || rapid.IntRange(0, 3).Draw(g.t, label+"_hasdoc") != 0 {
 		return ""
 	}
-	docs := []string{"doc", "消息类型", "a b  c", "x,y;z{}", "// not a comment", "'q' \"dq\""}
+	docs := []string{"doc", "消息类型", "a b  c", "x,y;z{}", "// not a comment", "'q' \"dq\"", "100% %s"}
 	if !g.cfg.avoid("doc:multiline") {
 		docs = append(docs, "line1\nline2")
 	}
@@ -228,6 +229,9 @@ func (g *genState) valueField(label string, name string, inInline bool) *Field {
 		f.N = rapid.SampledFrom([]int{1, 2, 3, 4, 5, 8, 10, 16, 33}).Draw(g.t, label+"_n")
 		if !g.cfg.avoid("zchar") && rapid.IntRange(0, 3).Draw(g.t, label+"_z") == 0 {
 			f.Z = true
+			if !inInline && !g.cfg.avoid("zchar:pad") && rapid.IntRange(0, 3).Draw(g.t, label+"_zpad") == 0 {
+				f.Pad = g.pad(label)
+			}
 		} else if !inInline {
 			f.Pad = g.pad(label)
 		}
@@ -295,6 +299,27 @@ func GenProgram(t *rapid.T, cfg GenCfg) *Program {
 	for i := 0; i < np; i++ {
 		k := &Packet{Name: names[i], Root: i == rootIdx}
 		p.Packets = append(p.Packets, k)
+	}
+	if cfg.MetaShare && !cfg.avoid("meta") {
+		mb := &MetaBlock{Name: g.nm.Name(t, "sharedblock", ShUpperCamel)}
+		e := MetaEntry{Name: g.nm.Name(t, "shared", ShUpperCamel), Kind: KFixed, N: rapid.SampledFrom([]int{2, 4, 8}).Draw(t, "shared_n"), Z: rapid.Bool().Draw(t, "shared_z"), Doc: "s"}
+		a := MetaEntry{Name: g.nm.Name(t, "sharedalias", ShUpperCamel), Kind: KFixed, N: e.N, Z: e.Z, Alias: e.Name, Doc: "a"}
+		mb.Entries = []MetaEntry{e, a}
+		p.Metas = append(p.Metas, mb)
+		root := p.Packets[rootIdx]
+		n := rapid.IntRange(2, 4).Draw(t, "shared_nf")
+		padded := rapid.IntRange(0, n-1).Draw(t, "shared_padded")
+		for i := 0; i < n; i++ {
+			src := e
+			if rapid.IntRange(0, 2).Draw(t, fmt.Sprintf("shared_alias%d", i)) == 0 {
+				src = a
+			}
+			f := &Field{Kind: KFixed, N: src.N, Z: src.Z, Via: src.Name, Name: g.fname(fmt.Sprintf("shared_f%d", i))}
+			if i == padded {
+				f.Pad = &Pad{Left: rapid.Bool().Draw(t, "shared_padleft"), Char: rapid.SampledFrom([]string{"'0'", "' '"}).Draw(t, "shared_padch")}
+			}
+			root.Fields = append(root.Fields, f)
+		}
 	}
 	for i := 0; i < np; i++ {
 		var lower []string
@@ -497,7 +522,9 @@ func (g *genState) anyField(label string, refs []string, depth int) *Field {
 		if !cfg.avoid("repeat") && !cfg.avoid("repeat:"+f.Kind.String()) && rapid.IntRange(0, 3).Draw(t, label+"_rep") == 0 {
 			f.Repeat = true
 		}
-		if f.Kind == KFixed && !f.Z && !cfg.avoid("via:pad") {
+		if f.Kind == KFixed && !cfg.avoid("via:pad") {
+			// also on zchar entries: a declared attribute overrides the implicit NUL padding of
+			// this field only
 			f.Pad = g.pad(label)
 		}
 		return f
@@ -694,7 +721,43 @@ func AddSecondMatch(t *rapid.T, p *Program) {
 		for i, pr := range m.Pairs {
 			m2.Pairs = append(m2.Pairs, Pair{Keys: []string{fmt.Sprint(i + 1)}, Target: pr.Target})
 		}
-		k.Fields = append(k.Fields, key, m2)
+		// the second key directly after the first one (they may then share a source line)
+		ki := indexOf(k.Fields, m.Key)
+		k.Fields = insert(k.Fields, ki+1, key)
+		k.Fields = append(k.Fields, m2)
 		return
 	}
+}
+
+// ShareInline copies one packet's inline object (same name, same fields) into another packet,
+// when the program has an inline object and a second packet.
+func ShareInline(t *rapid.T, p *Program) bool {
+	for i, k := range p.Packets {
+		for _, f := range k.Fields {
+			if f.Kind != KInline {
+				continue
+			}
+			var others []int
+			for j := range p.Packets {
+				if j != i {
+					others = append(others, j)
+				}
+			}
+			if len(others) == 0 {
+				return false
+			}
+			o := p.Packets[others[rapid.IntRange(0, len(others)-1).Draw(t, "shareinline_to")]]
+			b := p.Clone()
+			var cp *Field
+			for _, bf := range b.PacketByName(k.Name).Fields {
+				if bf.Name == f.Name {
+					cp = bf
+				}
+			}
+			cp.Repeat = false
+			o.Fields = append(o.Fields, cp)
+			return true
+		}
+	}
+	return false
 }
